@@ -288,6 +288,44 @@ pub fn run(a: &Args) -> i32 {
         emit("ws_server", "concurrent_responses", segs, false, json!({"requests": n, "messages": got}), &mut out);
     }
 
+    // WebSocket server with an assumed peer frame limit: an oversized response is REPLACED by an error frame the server
+    // builds itself; whatever it builds (however small the limit) must still be one whole, self-consistent frame
+    for limit in [49usize, 60, 100, 128, 160, 200, 1024] {
+        let listener = rt.block_on(WebSocketServer::listen("127.0.0.1:0")).unwrap();
+        let addr = listener.local_addr().unwrap();
+        let wl = repe::WebSocketLimits::unlimited().with_assumed_peer_frame_limit(Some(limit));
+        rt.spawn(async move { let _ = WebSocketServer::new(big_router()).with_limits(wl).with_offreader_limit(0).serve_listener(listener, "/ws").await; });
+        std::thread::sleep(Duration::from_millis(30));
+        let s = TcpStream::connect(addr).unwrap();
+        let cfg = tungstenite::protocol::WebSocketConfig { max_frame_size: None, max_message_size: None, ..Default::default() };
+        let (mut ws, _) = tungstenite::client::client_with_config(format!("ws://{addr}/ws"), s, Some(cfg)).unwrap();
+        let lens = [0usize, 10, limit.saturating_sub(53), limit, limit + 1, 4 * limit + 7, 70_000];
+        for (i, len) in lens.iter().enumerate() {
+            ws.send(tungstenite::Message::Binary(req_frame(i as u64 + 1, "/big", json!({"len": len, "key": i as u64 + 1})).into())).unwrap();
+        }
+        ws.get_ref().set_read_timeout(Some(Duration::from_millis(800))).ok();
+        let (mut segs, mut got, mut substituted) = (vec![], 0usize, 0usize);
+        while got < lens.len() {
+            match ws.read() {
+                Ok(tungstenite::Message::Binary(b)) => {
+                    got += 1;
+                    let consistent = b.len() >= 48 && b[8] == 0x07 && b[9] == 0x15 && {
+                        let (t, q, bl) = (u64::from_le_bytes(b[0..8].try_into().unwrap()), u64::from_le_bytes(b[24..32].try_into().unwrap()), u64::from_le_bytes(b[32..40].try_into().unwrap()));
+                        t == b.len() as u64 && 48u64.checked_add(q).and_then(|x| x.checked_add(bl)) == Some(t)
+                    };
+                    let ec = if b.len() >= 48 { u32::from_le_bytes(b[44..48].try_into().unwrap()) } else { 0 };
+                    let id = if b.len() >= 24 { u64::from_le_bytes(b[16..24].try_into().unwrap()) } else { 0 };
+                    if !consistent { segs.push(json!(["bad_header", 0])); }
+                    else if ec != 0 { substituted += 1; segs.push(json!(["whole", id])); }
+                    else { let sg = segments(&b, &|id| id); if sg.len() == 1 && sg[0][0] == "whole" { segs.push(sg[0].clone()); } else { segs.push(json!(["foreign", 0])); } }
+                }
+                Ok(_) => {}
+                Err(_) => break,
+            }
+        }
+        emit("ws_server", "substituted_error_frames", segs, false, json!({"limit": limit, "requests": lens.len(), "messages": got, "substituted": substituted}), &mut out);
+    }
+
     // ---------------- interrupted writes on the clients ----------------
     // blocking client: a write timeout expires mid-frame against a stalled peer; a second call must not follow it
     {
